@@ -381,6 +381,12 @@ class SymExec:
                     self.other_reads.append(key)
                     raise Top(f"unknown attribute {key}")
                 return self.lift(c, key)
+            if isinstance(e.value, ast.Name):
+                # a static method (plain function) of a class taken as a value: `step = Class._next`
+                k_ = (self.cls if e.value.id in ("self", "cls") and self.cls else None) or self.M.lookup_class_name(self.mod, e.value.id)
+                m_ = self.M.find_method(k_, e.attr) if k_ else None
+                if m_ is not None and m_.kind == "static" and len(m_.node.decorator_list) == 1:
+                    return ("func", m_)
             c = self.const_of(e, env)
             return self.lift(c, key)
         if isinstance(e, ast.BinOp):
@@ -502,6 +508,8 @@ class SymExec:
                 k = self.M.lookup_class_name(self.mod, f.value.id)
                 if k:
                     callee = self.M.find_method(k, f.attr)
+        elif isinstance(f, ast.Name) and isinstance(env.get(f.id), tuple) and len(env[f.id]) == 2 and env[f.id][0] == "func":
+            callee = env[f.id][1]
         elif isinstance(f, ast.Name):
             callee = self.M.funcs.get(f"{self.mod}.{f.id}")
             if f.id in ("int",) and len(e.args) == 1:
